@@ -185,6 +185,35 @@ def x1_x3(ctx):
                     if len(rets) != 1 or len(good) != 1:
                         r3.fail('%s:%s:origin-of-expansion' % (CRATE, enclosing_ok), pp.where(rf['l']),
                                 '%s must return the origin recorded with the macro definition (DefineText.origin) as the origin of the expansion' % enclosing_ok)
+            elif sx.is_call(origin, 'Some') and origin['args'][0].get('k') == 'tuple' and len(origin['args'][0]['e']) == 2 \
+                    and sx.is_path(sx.strip_ref(text)):
+                # separator standing for a removed node: TEXT is a local holding string literals only, the origin is
+                # Some((path, Range::new(L.offset, L.offset + TEXT.len()))) for the Locate L of the removed node
+                tv = sx.strip_ref(text)['p']
+                st_t, _ = resolve_let(chain, stmts, i, tv)
+                def only_literal(e_):
+                    if sx.lit_str(e_):
+                        return True
+                    if e_.get('k') == 'block' and len(e_['stmts']) == 1 and e_['stmts'][0]['k'] == 'expr' and not e_['stmts'][0].get('semi'):
+                        return only_literal(e_['stmts'][0]['e'])
+                    if e_.get('k') == 'if' and 'e' in e_:
+                        return only_literal(e_['t']) and only_literal(e_['e'])
+                    return False
+                lits_only = st_t is not None and 'init' in st_t and only_literal(st_t['init'])
+                pth, rng = origin['args'][0]['e']
+                rexpr = rng
+                if sx.is_path(rng):
+                    st_r, _ = resolve_let(chain, stmts, i, rng['p'])
+                    rexpr = st_r['init'] if st_r is not None and 'init' in st_r else None
+                okr = False
+                if rexpr is not None and sx.is_call(rexpr) and rexpr['f']['p'] == 'Range::new' and len(rexpr['args']) == 2:
+                    a0, b0 = sq(rexpr['args'][0]), sq(rexpr['args'][1])
+                    m_ = a0.endswith('.offset')
+                    okr = m_ and b0 == '(%s+%s.len())' % (a0, tv)
+                if not (lits_only and okr and sq(pth) == 'path.as_ref()'):
+                    r3.fail(key + ':separator-form', pp.where(call.get('l')),
+                            '%s: synthesised text `%s` with origin `%s` is not a literal separator mapped to the start of the node it replaces' %
+                            (akey, sx.render(text), sx.render(origin)[:80]))
             else:
                 r3.fail(key + ':origin-form', pp.where(call.get('l')), '%s: unmodelled origin expression `%s` (fail closed)' % (akey, sx.render(origin)[:60]))
     r1.floor('source_copy_emission_sites', nA, 20)
